@@ -292,14 +292,18 @@ Lemma w_fields_cons c off f r m base :
   w_fields c (FCons off f r) m base = (it <- w_field c f m (base + off) ;; its <- w_fields c r m base ;; Ok (it :: its)).
 Proof. reflexivity. Qed.
 
+Lemma w_field_nest c fs m a : w_field c (FNest fs) m a = (its <- w_fields c fs m a ;; Ok (INest its)).
+Proof. reflexivity. Qed.
+
 Lemma slot_walk m a : Forall (fun L => L <= STRIDE) (lens m) -> slot_post m a ->
   exists p n bs, load64 m a = Ok p /\ load64 m (a + 8) = Ok n /\ load m p n = Ok bs /\ 0 <= n < W64 /\
                  (n <> 0 -> ptr_ok (lens m) p n).
 Proof.
   intros Hwf [p [n [L1 [L2 [R [_ P]]]]]]. exists p, n.
   destruct (Z.eq_dec n 0) as [->|Hn].
-  - exists []. repeat split; auto; try lia. intros H; congruence.
-  - destruct (P Hn) as [A _]. destruct (load_valid _ _ _ A) as [bs Hb]. exists bs. repeat split; auto; lia.
+  - exists []. split; [exact L1|]. split; [exact L2|]. split; [reflexivity|]. split; [exact R|]. intros H; congruence.
+  - destruct (P Hn) as [A B]. destruct (load_valid _ _ _ A) as [bs Hb]. exists bs.
+    split; [exact L1|]. split; [exact L2|]. split; [exact Hb|]. split; [exact R|]. intros _. exact (P Hn).
 Qed.
 
 Lemma walk_ok m : Forall (fun L => L <= STRIDE) (lens m) ->
@@ -326,7 +330,7 @@ Proof.
     rewrite L1, L2. cbn [bind]. rewrite L3. cbn [bind]. rewrite Hs. eauto.
   - intros a _ [].
   - intros a _ [].
-  - intros fs IH a H Hs. cbn [wgood_f w_field field_simple] in *. destruct (IH a H Hs) as [its Hi]. rewrite Hi. cbn. eauto.
+  - intros fs IH a H Hs. cbn [wgood_f field_simple] in *. rewrite w_field_nest. destruct (IH a H Hs) as [its Hi]. rewrite Hi. cbn. eauto.
   - intros vsz vfs _ a [H1 H2] _. cbn [w_field].
     destruct (slot_walk m a Hwf H1) as [p [n [bs [L1 [L2 [L3 _]]]]]].
     destruct (slot_walk m (a + 16) Hwf H2) as [p2 [n2 [bs2 [M1 [M2 [M3 _]]]]]].
